@@ -12,7 +12,7 @@ from fractions import Fraction
 from dv import core, trees
 from dv.core import cz, cbool, clist, copt, cpair, cq, cnat
 
-HEADER = ("From DV Require Import Model.PyPrims Model.C05Model Model.C05Model2.\n"
+HEADER = ("From DV Require Import Model.PyPrims Model.C05Model Model.C05Model2 Model.C05Model5.\n"
           "From Coq Require Import ZArith QArith. Open Scope Z_scope.")
 
 UNIT = Fraction(1, 1024)
@@ -20,7 +20,9 @@ MODES = [None, "keep", "support", "clear", "mean-length", "median-length", "mean
 MODE_COQ = {None: "ELNone", "keep": "ELKeep", "support": "ELSupport", "clear": "ELClear",
             "mean-length": "ELMeanLen", "median-length": "ELMedianLen",
             "mean-age": "ELMeanAge", "median-age": "ELMedianAge"}
-WEIGHTS = [None, None, 1, 2, 3, Fraction(1, 2), Fraction(1, 4), Fraction(3, 2), Fraction(5, 4), 0]
+WEIGHTS = [None, None, 1, 2, 3, Fraction(1, 2), Fraction(1, 4), Fraction(3, 2), Fraction(5, 4), 0, 24, 25]
+# numbers of trees n for which some k/n differs from k*(1.0/n) in binary64 (49: 49*(1/49) < 1; 98: 49*(1/98) < 1/2; 6: 5*(1/6))
+BOUNDARY_NTREES = [6, 49, 49, 98, 93, 103, 107]
 
 
 def fr(x):
@@ -56,6 +58,24 @@ def make_ultrametric(rng, t):
     setlen(t, None)
     for n in trees.preorder(t):
         del n["_age"]
+
+
+def make_nonultrametric(rng, t):
+    """explicit positive lengths on every edge with at least two different root-to-tip distances
+    (differences are multiples of 2**-10, far above the default ultrametricity precision)"""
+    for n in trees.preorder(t):
+        n["len"] = rng.choice([256, 512, 1024, 1536, 2048, 3072])
+    t["len"] = None
+
+    def depths(n, d, out):
+        if not n["kids"]:
+            out.append(d)
+        for k in n["kids"]:
+            depths(k, d + k["len"], out)
+        return out
+    if len(set(depths(t, 0, []))) == 1:
+        lf = trees.leaves(t)[0]
+        lf["len"] += 1024
 
 
 def leafset(n):
@@ -150,9 +170,19 @@ def gen_case(rng, tier="quick", force=None):
         return fr(rng.choice(WEIGHTS)) if weighted else None
 
     ntrees = min(40, max(1, int(rng.expovariate(1 / 12.0)) + 1))
+    if rng.random() < 0.06 and ntax <= 8:
+        ntrees = rng.choice(BOUNDARY_NTREES)      # k/n vs k*(1/n) boundary counts
     # multiset: skewed multiplicities so that frequencies are non-trivial
     bias = [rng.random() ** 2 + 0.05 for _ in pool]
-    picks = rng.choices(range(npool), weights=bias, k=ntrees)
+    if ntrees in BOUNDARY_NTREES and rng.random() < 0.7:
+        # identical trees / an exact half: frequencies sit exactly on 1 and 1/2
+        if npool >= 2 and ntrees % 2 == 0:
+            picks = [0] * (ntrees // 2) + [1] * (ntrees // 2)
+        else:
+            picks = [0] * ntrees
+        rng.shuffle(picks)
+    else:
+        picks = rng.choices(range(npool), weights=bias, k=ntrees)
     cand_masks = []
     for p in pool:
         cand_masks.extend(spec_masks(p["tree"], p["rooting"] is True, ntax,
@@ -170,7 +200,9 @@ def gen_case(rng, tier="quick", force=None):
             return "default"
         if k < 0.15:
             return None
-        if k < 0.55 and ntrees <= 20:
+        if (k < 0.55 and ntrees <= 20) or (k < 0.4 and ntrees in BOUNDARY_NTREES):
+            if ntrees in BOUNDARY_NTREES and rng.random() < 0.6:
+                return rng.choice([[1, 1], [1, 2], [ntrees // 2, ntrees], [ntrees - 1, ntrees]])
             return [rng.randint(1, ntrees), ntrees]
         q = rng.randint(1, 20)
         return [rng.randint(1, q), q]
@@ -235,6 +267,32 @@ def gen_case(rng, tier="quick", force=None):
     if rng.random() < 0.3:
         ops.append(["Count", rng.randrange(npool), wt()])
         ops.append(analysis())
+    # trees the collection has to REFUSE, offered in the middle of the history (the caller catches the
+    # documented error and carries on): not ultrametric while node ages are tracked
+    # (UltrametricityError), over a foreign namespace (TaxonNamespaceIdentityError / the assert of
+    # count_splits_on_tree); wrong rooting for a TreeArray is already produced by the mixed pools.
+    # A non-ultrametric tree offered to a collection that ignores node ages must be ACCEPTED.
+    if force.get("refusals", rng.random() < (0.6 if ages else 0.2)):
+        import copy
+        nbad = rng.randint(1, 2)
+        for _ in range(nbad):
+            kind = rng.choice(["nonultra", "nonultra", "foreign"])
+            if kind == "nonultra":
+                t = trees.gen_tree(rng, ntax, lengths="positive")
+                make_nonultrametric(rng, t)
+            else:
+                t = copy.deepcopy(rng.choice(pool[:npool])["tree"])
+            r = rooting if rooting != "mixed" else rng.choice([True, False, None])
+            pool.append({"tree": t, "rooting": r, "bad": kind})
+        for _ in range(rng.randint(1, 3)):
+            pos = rng.randint(0, max(0, len(ops) - 2))
+            bi = npool + rng.randrange(nbad)
+            if rng.random() < 0.2:
+                ops.insert(pos, ["Update", [[rng.randrange(npool), wt()], [bi, wt()], [rng.randrange(npool), wt()]][:rng.randint(2, 3)]])
+            else:
+                ops.insert(pos, ["Count", bi, wt()])
+            if rng.random() < 0.5:
+                ops.insert(pos + 1, rng.choice([["Freqs"], ["Query", a_mask()], ["Calc"]]))
     return {"ntax": ntax, "path": path, "cfg": cfg, "pool": pool, "init_rooting": init_rooting,
             "ops": ops, "layout": layout}
 
@@ -333,6 +391,9 @@ class Lib:
         for b in self.bit:
             self.real |= b
         self.idx = {id(t): k for k, t in enumerate(self.taxa)}
+        # a foreign namespace with the same labels (for trees the collection must refuse)
+        self.ns2 = dendropy.TaxonNamespace()
+        self.taxa2 = [self.ns2.new_taxon("t%d" % k) for k in range(len(self.taxa))]
         self.cfg = case["cfg"]
         self.path = case["path"]
         kw = dict(taxon_namespace=self.ns, ignore_edge_lengths=self.cfg["ignore_len"],
@@ -357,9 +418,12 @@ class Lib:
         return sorted(set(x for x in (norm_mask(self.mask(s), self.real, rooted) for s in tree_clades(tree, self.idx))
                           if x is not None))
 
-    def build(self, i, w=None):
+    def build(self, i, w=None, local=False):
         p = self.case["pool"][i]
-        t, _ = trees.build_dendropy(p["tree"], self.taxa, is_rooted=p["rooting"], namespace=self.ns)
+        if p.get("bad") == "foreign" and not local:
+            t, _ = trees.build_dendropy(p["tree"], self.taxa2, is_rooted=p["rooting"], namespace=self.ns2)
+        else:
+            t, _ = trees.build_dendropy(p["tree"], self.taxa, is_rooted=p["rooting"], namespace=self.ns)
         wv = unfr(w)
         if wv is not None:
             t.weight = float(wv) if wv.denominator != 1 else int(wv)
@@ -367,8 +431,8 @@ class Lib:
 
     def encoded_copy(self, i):
         """records of pool tree i as the library encodes it, and the encoded structure"""
-        t = self.build(i)
-        if not self.cfg["ignore_ages"]:
+        t = self.build(i, local=True)
+        if not self.cfg["ignore_ages"] and self.case["pool"][i].get("bad") != "nonultra":
             t.calc_node_ages(ultrametricity_precision=self.sd.ultrametricity_precision)
         t.encode_bipartitions()
         recs = []
@@ -392,9 +456,21 @@ class Lib:
         else:
             target_ta.add_tree(t)
 
+    @staticmethod
+    def digest(d):
+        """(entries, values, md5) of a dict split -> list (for the clause `a refused tree changes nothing`)"""
+        import hashlib
+        items = [(k, [None if x is None else repr(float(x)) for x in v]) for k, v in d.items()]
+        return [len(items), sum(len(v) for _k, v in items), hashlib.md5(repr(items).encode()).hexdigest()]
+
     def snapshot(self):
         sd = self.sd
-        return {"total": sd.total_trees_counted, "sum_w": qfloat(sd.sum_of_tree_weights),
+        ta = self.ta
+        return {"lists": {"split_edge_lengths": self.digest(sd.split_edge_lengths),
+                          "split_node_ages": self.digest(sd.split_node_ages)},
+                "ta_lists": None if ta is None else [len(ta._tree_split_bitmasks), len(ta._tree_edge_lengths),
+                                                     len(ta._tree_leafset_bitmasks), len(ta._tree_weights)],
+                "total": sd.total_trees_counted, "sum_w": qfloat(sd.sum_of_tree_weights),
                 "counts": [[s, qfloat(c)] for s, c in sd.split_counts.items()],
                 "cache": None if sd._split_freqs is None else [[s, qfloat(f)] for s, f in sd._split_freqs.items()],
                 "counted_for": sd._trees_counted_for_freqs,
@@ -569,6 +645,7 @@ def observe(case):
         recs, leafset_mask, st, unrooted_after = lib.encoded_copy(i)
         pool.append({"recs": recs, "leafset": leafset_mask, "stree": st, "unrooted_after": unrooted_after})
     steps = []
+    snap0 = lib.snapshot()
     for op in case["ops"]:
         try:
             with core.alarm(20):
@@ -576,7 +653,8 @@ def observe(case):
         except Exception as e:
             out = ["UErr", core.exc_enum(e), "%s: %s" % (type(e).__name__, str(e)[:120])]
         steps.append([out, lib.snapshot()])
-    return {"pool": pool, "steps": steps, "forwards": treearray_forwards(), "all": lib.all, "bits": lib.bit}
+    return {"pool": pool, "steps": steps, "forwards": treearray_forwards(), "all": lib.all, "bits": lib.bit,
+            "snap0": snap0}
 
 
 # ----------------------------------------------------------------------------
@@ -674,6 +752,23 @@ class Spec:
         return s
 
 
+# fields of the snapshot a refused tree must not change -> oracle key.  `total` (total_trees_counted) and `ta_rooting`
+# (_is_rooted_trees of a still-empty TreeArray) are NOT in this table, permanently: the library changes both on a refused
+# non-ultrametric tree, neither enters a frequency, consensus, support or summary that C05 speaks about (recorded as
+# observations, DESIGN 11.7); the model follows the code there (Model/C05Model5.v) and the proved statement is "at most
+# total_trees_counted changes" (Props/C05Gen.v gen_count_refused_nonultrametric).
+REFUSAL_FIELDS = {"sum_w": "refused-tree-changes-weight-sum", "counts": "refused-tree-changes-counts",
+                  "lists": "refused-tree-changes-lists", "ta_lists": "refused-tree-changes-array",
+                  "ntrees": "refused-tree-changes-array", "rootings": "refused-tree-changes-rootings",
+                  "cache": "refused-tree-changes-cache"}
+
+
+def exact_quotient(f, want):
+    """counts and weight sums of the harness' dyadic weights are exact in binary64, so the reported frequency
+    count / normaliser has to be THE correctly rounded quotient (what float(Fraction) gives)"""
+    return isinstance(f, list) and Fraction(f[0], f[1]) == Fraction(float(want))
+
+
 def close(a, b, tol=Fraction(1, 10 ** 9)):
     return abs(Fraction(a) - Fraction(b)) <= tol * (1 + abs(Fraction(b)))
 
@@ -722,9 +817,29 @@ def oracle(case, obs):
     spec = Spec(case)
     full = frozenset(range(ntax))
     path = case["path"]
+    prev = obs.get("snap0")
     for step_no, (op, (out, snap)) in enumerate(zip(case["ops"], obs["steps"])):
         name = op[0]
         err = out[0] == "UErr"
+        before, prev = prev, snap
+        # --- a refused tree (documented error, caught by the caller) changes nothing in the collection
+        if name in ("Count", "Update") and before is not None:
+            offered = [op[1]] if name == "Count" else [i for i, _w in op[1]]
+            kinds = [case["pool"][i].get("bad") for i in offered]
+            must_refuse = any(k == "foreign" or (k == "nonultra" and not case["cfg"]["ignore_ages"]) for k in kinds)
+            if must_refuse and not err:
+                return ("step %d %s: the collection accepted a tree it documents to refuse (%s)" % (step_no, op[:2], kinds),
+                        "refusable-tree-accepted")
+            if (not must_refuse) and err and any(kinds) and path == "sd":
+                return ("step %d %s: a non-ultrametric tree was refused (%s) by a distribution that ignores node ages"
+                        % (step_no, op[:2], out[1:]), "ages-ignored-tree-refused")
+            if err:
+                for f in REFUSAL_FIELDS:
+                    if f in before and before[f] != snap.get(f):
+                        return ("step %d %s was refused (%s) but changed %s of the collection: %s -> %s; a refused tree must leave counts, "
+                                "weight sum, lists and the array's trees as they were" % (step_no, op[:2], (out[2] if len(out) > 2 else out[1]).split("\n")[0][:70], f,
+                                                                                   str(before[f])[:80], str(snap.get(f))[:80]),
+                                REFUSAL_FIELDS[f])
         # --- bookkeeping of counted trees
         if name == "Count" and not err:
             spec.occ.append((op[1], spec.weight(op[2])))
@@ -773,6 +888,11 @@ def oracle(case, obs):
                             % (where, what, s, f if isinstance(f, str) else float(unfr(f)), freq[k]), fkey_findings())
             if seen != set(freq):
                 return ("%s: %s misses %d split(s) of the counted trees" % (where, what, len(set(freq) - seen)), "missing-split")
+            for s, f in tbl:
+                k = spec.key_of_mask(s, rooted)
+                if not exact_quotient(f, freq[k]):
+                    return ("%s: %s gives split %d frequency %r, the correctly rounded quotient %s is %r"
+                            % (where, what, s, float(unfr(f)), freq[k], float(freq[k])), "frequency-inexact-quotient")
             return None
 
         if name == "Query" and not err:
@@ -781,6 +901,9 @@ def oracle(case, obs):
             if not close(unfr(out[1]), want, Fraction(1, 10 ** 12)):
                 return ("%s: distribution[%d] = %s, the (weighted) fraction of trees containing the split is %s"
                         % (where, op[1], float(unfr(out[1])), want), fkey_findings())
+            if not exact_quotient(out[1], want):
+                return ("%s: distribution[%d] = %r, the correctly rounded quotient %s is %r"
+                        % (where, op[1], float(unfr(out[1])), want, float(want)), "frequency-inexact-quotient")
         if name in ("Calc", "Freqs") and not err:
             v = check_table(out[1], "split_frequencies")
             if v:
@@ -1212,8 +1335,10 @@ def to_coq(case, obs):
         ops.append(c_op2(op, out[2] if (op[0] == "Scores" and out[0] == "UScores") else None))
         exp.append(cpair(c_out2(out), c_snap(snap)))
     ua = clist([obool(o["unrooted_after"]) for o in obs["pool"]])
-    return "(mkCase2 %s %s %s %s %s %s)" % (env, ua, cbool(in_quantifier(case)), obool(case["init_rooting"]),
-                                            clist(ops), clist(exp))
+    bad = clist([{None: "None", "nonultra": "(Some RNotUltrametric)", "foreign": "(Some RForeignNs)"}[p.get("bad")]
+                 for p in case["pool"]])
+    return "(mkCase3 (mkCase2 %s %s %s %s %s %s) %s)" % (env, ua, cbool(in_quantifier(case)), obool(case["init_rooting"]),
+                                                         clist(ops), clist(exp), bad)
 
 
 def nontrivial(case, obs):
@@ -1284,6 +1409,39 @@ def probe_cases():
                   ["Update", []], ["Query", 5]])
     c["probe"] = "cache-update"
     out.append(c)
+    # boundary counts: k/n differs from k*(1.0/n) in binary64 (49 identical trees, weights 24 + 25, 49 of 98, 5 of 6)
+    two = [{"tree": T4("AB"), "rooting": True}, {"tree": T4("AC"), "rooting": True}]
+    tail = [["Query", 3], ["Freqs"], ["Collapse", 0, [1, 1]], ["Collapse", 0, [1, 2]], ["Consensus", [1, 2]], ["Consensus", [1, 1]],
+            ["Summarize", 0, {"mode": "support", "percent": False, "min_len": None, "err_neg": False, "label": False, "decimals": 4}]]
+    for path in ("sd", "ta"):
+        cfg = dict(base["cfg"], default_len=fr(0) if path == "ta" else None)
+        out.append(dict(base, path=path, cfg=cfg, pool=two, ops=[["Count", 0, None]] * 49 + tail, probe="49-identical"))
+        out.append(dict(base, path=path, cfg=cfg, pool=two, ops=[["Count", 0, fr(24)], ["Count", 0, fr(25)]] + tail, probe="weights-24-25"))
+        out.append(dict(base, path=path, cfg=cfg, pool=two, ops=[["Count", 0, None], ["Count", 1, None]] * 49 + tail, probe="49-of-98"))
+        out.append(dict(base, path=path, cfg=cfg, pool=two, ops=[["Count", 0, None]] * 5 + [["Count", 1, None]] + tail, probe="5-of-6"))
+    # refused trees in the middle of a history of an age-tracking collection (3 accepted, 1 refused: every split of the
+    # accepted trees keeps frequency 1), a foreign-namespace tree, and a refusal as the very first offer
+    def ultra(shape):
+        t = T4(shape)
+        for k in t["kids"]:
+            k["len"] = 1024
+            for l in k["kids"]:
+                l["len"] = 1024
+        return t
+    nonu = T4("AC")
+    nonu["kids"][0]["kids"][0]["len"] = 5120
+    rpool = [{"tree": ultra("AB"), "rooting": True}, {"tree": ultra("AB"), "rooting": True},
+             {"tree": nonu, "rooting": True, "bad": "nonultra"}, {"tree": ultra("AB"), "rooting": True, "bad": "foreign"}]
+    rtail = [["Query", 3], ["Freqs"], ["Consensus", [19, 20]], ["Collapse", 0, [9, 10]],
+             ["Summarize", 0, {"mode": "mean-age", "percent": False, "min_len": None, "err_neg": False, "label": False, "decimals": 4}]]
+    for path in ("sd", "ta"):
+        for ign in (False, True):
+            cfg = dict(base["cfg"], ignore_ages=ign, default_len=fr(0) if path == "ta" else None)
+            out.append(dict(base, path=path, cfg=cfg, pool=rpool, probe="refused-in-the-middle",
+                            ops=[["Count", 0, None], ["Count", 2, None], ["Count", 1, fr(2)], ["Count", 3, None], ["Count", 0, None]] + rtail))
+            out.append(dict(base, path=path, cfg=cfg, pool=rpool, probe="refused-first",
+                            ops=[["Count", 2, fr(3)], ["Query", 3], ["Count", 0, None], ["Update", [[0, None], [2, None]]],
+                                 ["Update", [[1, None], [3, None]]], ["Count", 1, None]] + rtail))
     return out
 
 
@@ -1439,6 +1597,7 @@ def run(tier, seed, replay=None):
         "translator tie wave 5 (Gen/SplitDistTa.v, Props/C05Gen.v): trusted are the compiler py/dv/c05_gen_impl3.py and the stated Python meaning of the primitives in coq/Model/C05GenPrims3.v (the tree object from_split_bitmasks returns and the split bitmask each of its nodes presents to summarize_splits_on_tree(is_bipartitions_updated=True)); **split_summarization_kwargs is the configured summarizer record; maximum-credibility history shapes (py/dv/c05_merge.py) are checked by their oracle",
         "translator tie wave 6 (Gen/SplitDistDeco.v from py/dv/gen_splitdist_deco.py): SplitDistributionSummarizer.configure with its defaults, _decorate and the decoration statements of summarize_splits_on_tree are compiled from the AST as a second VIEW of the loop body (the first view, Gen/SplitDist.v, keeps support / edge.length / node.age); each view skips the other's statements after checking their shape, and the two act on disjoint parts of a node unless a configured attribute name is 'age', 'label', 'length' or 'annotations' (outside the model). Trusted: the primitives of coq/Model/C05GenPrims4.v (setattr / annotations.drop / add_bound_attribute / add_new, str.format with one field, the fixed-point format with round-half-even on the EXACT rational - the library formats the binary64 value, so at exact decimal ties the harness accepts both neighbours -, kwargs.pop, getattr on the summarizer); sd is represented by its variance (DSqrt), hpd95 / quant_5_95 are opaque",
         "merge model (coq/Model/C05Merge.v): per-split lists are heap objects named by the dict entry that created them (distribution, attribute, split); hand transcription of count_splits_on_tree / SplitDistribution.update at that level, tied by the merge correspondence run (mcase_ok: digests of both sources before and after, of the result and of a fresh collection); TreeArray.update / extend / __iadd__ / __add__ are taken to act on the distributions as self._split_distribution.update(other._split_distribution) (the four merge forms of the harness); self-update d.update(d) is outside the model",
+        "wave 8 (refused trees): whether an offered tree is ultrametric / over the collection's namespace is an input flag of the model set by the harness from the spec tree; the state a refused count leaves behind is taken from the generated code (Gen/SplitDist.v gen_count_splits_on_tree_exc, the statements preceding the raising call compiled from the AST); TreeArray.add_tree's refusal path (Model/C05Model5.ta_offer) is a hand transcription tied by this run",
         "namespaces with vacated bits and trees on a subset of the taxa are outside the property's quantifier: they are run through the correspondence only (the oracle and the namespace hypotheses are skipped for them)",
     ]
     if replay:
@@ -1479,6 +1638,11 @@ def run(tier, seed, replay=None):
         ctx.count("trees:%d" % (10 * (sum(1 if o[0] == "Count" else len(o[1]) if o[0] == "Update" else 0 for o in c["ops"]) // 10)))
         for o in c["ops"]:
             ctx.count("op:" + o[0])
+            if o[0] in ("Count", "Update"):
+                for j in ([o[1]] if o[0] == "Count" else [x for x, _w in o[1]]):
+                    if c["pool"][j].get("bad"):
+                        ctx.count("offered-refusable:%s:%s:%s" % (o[0], c["pool"][j]["bad"],
+                                                                  "ages-ignored" if c["cfg"]["ignore_ages"] else "ages-tracked"))
             if o[0] == "Summarize":
                 ctx.count("mode:%s" % o[2]["mode"])
     sd_complex_probe(ctx)
@@ -1496,9 +1660,9 @@ def run(tier, seed, replay=None):
                 ctx.count("consensus:%s:%d-clades" % ("majority" if (op[1] not in ("default", None) and 2 * op[1][0] > op[1][1]) else "greedy", min(len(out[1]), 5)))
         return obs
 
-    core.corr_stage(ctx, cases, observe_counting, to_coq, HEADER, "case2_ok", oracle=oracle,
-                    show_fn="case2_run", nontrivial=nontrivial, search=search, shard=32 if tier == "quick" else 120,
+    core.corr_stage(ctx, cases, observe_counting, to_coq, HEADER, "case3_ok", oracle=oracle,
+                    show_fn="case3_run", nontrivial=nontrivial, search=search, shard=32 if tier == "quick" else 120,
                     sample_fn=sample_fn)
     wave6_stages(ctx, tier)
     return ctx.finish(level="proof",
-                      rule="fixed probe cases + random op histories: 1-40 tree occurrences drawn with skewed multiplicities from a pool of 1-5 trees over 4-12 taxa spanning the namespace, rooted/unrooted/undefined/mixed rooting, dyadic or absent weights, SplitDistribution or TreeArray path, interleaved count/update/query/calc, thresholds k/ntrees or p/q (q<=20), default and None, every set_edge_lengths mode (oracle: mean/median-length and mean/median-age against the lengths / ages of exactly the trees containing the clade), percentages, labels, collapse, array scores, per-tree scores, split_support_iter, frequency_of_bipartition, topology frequencies; ~15% of the cases use a namespace with vacated bits and/or trees on a subset of the taxa (correspondence only); thorough adds multisets of 3 trees over all 4-taxon shapes x thresholds k/6; a case is non-trivial when >=2 distinct pool trees were counted and some cached frequency lies strictly between 0 and 1; distinct by full case content; wave 6: + 6 fixed and 50 (thorough 600) random decoration histories (1-6 trees, 1-3 summarize_splits_on_tree calls on the same target drawing every decoration flag, label decimals 0-6, percentages, custom field names, non-dynamic annotations; compared per node: all new instance attributes of node and edge, annotations in order, label) against Model/C05Model4.dcase_ok, and 4 fixed + 24 (thorough 300) merge histories in the four forms against Model/C05Merge.mcase_ok")
+                      rule="fixed probe cases + random op histories: 1-40 tree occurrences drawn with skewed multiplicities from a pool of 1-5 trees over 4-12 taxa spanning the namespace, rooted/unrooted/undefined/mixed rooting, dyadic or absent weights, SplitDistribution or TreeArray path, interleaved count/update/query/calc, thresholds k/ntrees or p/q (q<=20), default and None, every set_edge_lengths mode (oracle: mean/median-length and mean/median-age against the lengths / ages of exactly the trees containing the clade), percentages, labels, collapse, array scores, per-tree scores, split_support_iter, frequency_of_bipartition, topology frequencies; ~15% of the cases use a namespace with vacated bits and/or trees on a subset of the taxa (correspondence only); thorough adds multisets of 3 trees over all 4-taxon shapes x thresholds k/6; a case is non-trivial when >=2 distinct pool trees were counted and some cached frequency lies strictly between 0 and 1; distinct by full case content; wave 6: + 6 fixed and 50 (thorough 600) random decoration histories (1-6 trees, 1-3 summarize_splits_on_tree calls on the same target drawing every decoration flag, label decimals 0-6, percentages, custom field names, non-dynamic annotations; compared per node: all new instance attributes of node and edge, annotations in order, label) against Model/C05Model4.dcase_ok, and 4 fixed + 24 (thorough 300) merge histories in the four forms against Model/C05Merge.mcase_ok; wave 8: ~60% of the age-tracking and ~20% of the other histories offer 1-3 times a tree the collection must refuse (not ultrametric while node ages are tracked; over a foreign namespace with the same labels; inside the list of an Update) in the middle of the history, the documented error is caught, every snapshot field and list digest is compared before/after (a refused tree changes nothing) and the history continues; a non-ultrametric tree offered to a collection that ignores node ages must be accepted; ~6% of the histories use boundary numbers of trees (6, 49, 98, 93, 103, 107: identical trees or exact halves, thresholds 1, 1/2, (n-1)/n) and the weight pool contains 24 and 25; 16 fixed probe histories of these kinds; the model is Model/C05Model5.case3_ok")
